@@ -121,6 +121,9 @@ mod stderrlog {
 
 mod real_main {
     use super::stderrlog;
+    // atomics named through `std::sync::atomic` in main.rs are scheduling points too
+    #[allow(unused_imports)]
+    use pasfmt_orchestrator::verif_seam::shadow::std;
     include!("/repo/front-end/src/main.rs");
 
     pub fn run() -> i32 {
